@@ -62,7 +62,7 @@ def body_lattice(S, spec):
         # (the builders skip terms whose coefficient compares equal to 0.0; the all-non-zero branch is explored here)
         for nm in set(S.varnames):
             if nm[0] in "tVm":
-                zt.ctl().assume(z3.Real(nm) != 0, "coefficients non-zero", light=True)
+                zt.ctl().assume(z3.Real(nm) != 0, "input: coefficients non-zero", light=True)
     if spinful:
         # V plays the role of the on-site U (a node coefficient)
         uv = {s_: S.scalar(f"U{k}") for k, s_ in enumerate(sites)}
@@ -78,7 +78,7 @@ def body_lattice(S, spec):
             import z3
             for nm in set(S.varnames):
                 if nm[0] == "U":
-                    zt.ctl().assume(z3.Real(nm) != 0, "coefficients non-zero", light=True)
+                    zt.ctl().assume(z3.Real(nm) != 0, "input: coefficients non-zero", light=True)
         terms = sr.ham_fermi_hubbard_from_edges(sym, edges, t=t, U=U, mu=mu, like=like)
         im1 = {"Z2": [0, 1, 1, 0], "U1": [0, 1, 1, 2], "U1U1": [(0, 0), (0, 1), (1, 0), (1, 1)], "Z2Z2": [(0, 0), (0, 1), (1, 0), (1, 1)]}[sym]
         ims = [im1] * n
